@@ -91,6 +91,45 @@ def run(patch, props, tier="quick"):
     return results
 
 
+def harvest(sid, prop):
+    """Applies seeded/<sid>/patch.diff, runs the quick check of <prop>, and keeps the replay files it
+    produced as committed regression inputs replays/<prop>/seed-<sid>*; then checks on the clean
+    tree that they pass."""
+    import glob
+    patch = os.path.join(VERIF, "seeded", sid, "patch.diff")
+    rc, out = sh("git status --porcelain --untracked-files=no", "/repo")
+    assert out.strip() == "", "/repo has tracked modifications: " + out
+    rc, out = sh("git apply %s" % patch, "/repo")
+    assert rc == 0, "patch does not apply: " + out
+    kept = []
+    try:
+        rc, out = sh("./check %s --tier quick" % prop, VERIF, timeout=7200)
+        found = os.path.join(VERIF, "replays", prop, "found")
+        sigs = set()
+        for line in out.splitlines():
+            if line.startswith("VIOLATION"):
+                path = line.split("replay=", 1)[1].strip()
+                if not os.path.exists(path):
+                    continue
+                base = os.path.basename(path.rstrip("/"))
+                ext = os.path.splitext(base)[1] if os.path.isfile(path) else ""
+                dst = os.path.join(VERIF, "replays", prop, "seed-%s-%d%s" % (sid, len(kept), ext))
+                if os.path.isdir(path):
+                    shutil.rmtree(dst, ignore_errors=True)
+                    shutil.copytree(path, dst)
+                else:
+                    if "crash" in base and ext == ".ops" and os.path.getsize(path) > 20000:
+                        continue
+                    shutil.copyfile(path, dst)
+                kept.append(dst)
+                if len(kept) >= 2:
+                    break
+        print(sid, prop, "check rc", rc, "kept", [os.path.basename(k) for k in kept])
+    finally:
+        sh("git checkout -- .", "/repo")
+    return kept
+
+
 def keep(wt, x, sid, prop, needs, ran):
     src = os.path.join(wt, "SEEDS", x)
     dst = os.path.join(VERIF, "seeded", sid)
@@ -120,5 +159,7 @@ if __name__ == "__main__":
             tier = args[i + 1]
             del args[i:i + 2]
         run(args[0], args[1:], tier)
+    elif cmd == "harvest":
+        harvest(sys.argv[2], sys.argv[3])
     elif cmd == "keep":
         keep(*sys.argv[2:8])
